@@ -182,6 +182,87 @@ def explore(ctx):
         ctx.sample(meta[0])
 
     names_and_totality(ctx)
+    varfont_overrides(ctx)
+
+
+def varfont_overrides(ctx):
+    """public.fontInfo overrides of a designspace <variable-font> are explicitly set attributes of that variable font:
+    each must appear in its table field, also when its value is 0 / empty / False and the default master's is not."""
+    import ufo2ft
+    from fontTools.ttLib import TTFont
+    from harness import dsgen
+    rng = ctx.subrng("vf-info")
+    cases, meta = [], []
+    VM = [a for a in ATTRS if a != "unitsPerEm"]
+    for i in range(ctx.budget(10, 60)):
+        info0 = {"unitsPerEm": Fr(1000), "ascender": Fr(800), "descender": Fr(-200), "xHeight": Fr(500), "capHeight": Fr(700),
+                 "openTypeOS2TypoLineGap": Fr(200), "openTypeHheaLineGap": Fr(100), "openTypeOS2WinDescent": Fr(250)}
+        extra0 = {"italicAngle": -10, "postscriptUnderlinePosition": -80, "postscriptUnderlineThickness": 60,
+                  "postscriptIsFixedPitch": True, "openTypeOS2Type": [2], "openTypeHheaCaretOffset": 30,
+                  "openTypeOS2WeightClass": 400, "openTypeOS2WidthClass": 5, "trademark": "tm", "versionMajor": 1, "versionMinor": 0}
+        ov = {}
+        for a in VM:
+            if rng.random() < 0.4:
+                if a.endswith("Descender") or a == "descender":
+                    ov[a] = Fr(rng.choice([0, -100, -300]))
+                elif a == "openTypeOS2WinDescent" or a == "openTypeOS2WinAscent" or a.endswith("LineGap"):
+                    ov[a] = Fr(rng.choice([0, 0, 90, 300]))
+                else:
+                    ov[a] = Fr(rng.choice([0, 0, 650, 900]))
+        pool = {"italicAngle": [0, 0, -5.5], "postscriptUnderlinePosition": [0, 0, -120], "postscriptUnderlineThickness": [0, 33],
+                "postscriptIsFixedPitch": [False], "openTypeOS2Type": [[], [3]], "openTypeHheaCaretOffset": [0, 0, 12],
+                "openTypeOS2WeightClass": [700, 1], "openTypeOS2WidthClass": [1, 9], "trademark": ["", "vf tm"],
+                "versionMajor": [0, 2]}
+        ovx = {k: rng.choice(v) for k, v in pool.items() if rng.random() < 0.5}
+        masters = []
+        for k in range(2):
+            masters.append({"glyphs": [{"name": "a", "width": 500 + 40 * k, "unicodes": [0x61],
+                                        "contours": [[(0, 0, "line"), (100 + 30 * k, 0, "line"), (50, 100 + 10 * k, "line")]]},
+                                       {"name": "b", "width": 600, "unicodes": [0x62], "contours": []}],
+                            "glyphOrder": ["a", "b"],
+                            "info": dict({"familyName": "Fam", "styleName": "M%d" % k}, **dict(info0, **extra0)), "no_info_defaults": True})
+        lib = ["ufoLib2", "defcon"][i % 2]
+        fn = ["compileVariableTTFs", "compileVariableCFF2s"][(i // 2) % 2]
+        override = dict({k: int(v) for k, v in ov.items()}, **ovx)
+        ds, fonts = dsgen.make_designspace(rng, masters, lib, instances=False, vf_info=[override])
+        case = {"function": fn, "lib": lib, "default_master_info": jsonable(dict(info0, **extra0)), "variable_font_public.fontInfo": jsonable(override)}
+        ctx.count(); ctx.klass("vf-info:%s/%s" % (fn, lib))
+        if any(not v for v in override.values()):
+            ctx.nontriv(("vf-info", i, ctx.scale))
+        try:
+            vf = getattr(ufo2ft, fn)(ds)["VF0"]
+            buf = io.BytesIO(); vf.save(buf); buf.seek(0); tt = TTFont(buf)
+        except Exception as e:
+            ctx.spec_failure(case, "%s with public.fontInfo overrides raised %s: %s\n%s" % (fn, type(e).__name__, e, traceback.format_exc()[-1000:]))
+            continue
+        eff = dict(info0, **ov)
+        o, h, post = tt["OS/2"], tt["hhea"], tt["post"]
+        obs = (tt["head"].unitsPerEm, o.sxHeight, o.sCapHeight, o.sTypoAscender, o.sTypoDescender, o.sTypoLineGap,
+               o.usWinAscent, o.usWinDescent, h.ascent, h.descent, h.lineGap)
+        cases.append(G.tup("(mkInfo %s)" % " ".join(g_optq(eff.get(a)) for a in ATTRS), "(mkVM %s)" % " ".join(G.z(v) for v in obs)))
+        meta.append(dict(case, impl_fields=list(obs)))
+        effx = dict(extra0, **ovx)
+        checks = [("italicAngle", abs(post.italicAngle - effx["italicAngle"]) < 1e-3, post.italicAngle),
+                  ("postscriptUnderlinePosition", post.underlinePosition == geom.ot_round(Fr(effx["postscriptUnderlinePosition"])), post.underlinePosition),
+                  ("postscriptUnderlineThickness", post.underlineThickness == geom.ot_round(Fr(effx["postscriptUnderlineThickness"])), post.underlineThickness),
+                  ("postscriptIsFixedPitch", bool(post.isFixedPitch) == bool(effx["postscriptIsFixedPitch"]), post.isFixedPitch),
+                  ("openTypeOS2Type", o.fsType == sum(1 << b for b in set(effx["openTypeOS2Type"])), o.fsType),
+                  ("openTypeHheaCaretOffset", h.caretOffset == effx["openTypeHheaCaretOffset"], h.caretOffset),
+                  ("openTypeOS2WeightClass", o.usWeightClass == effx["openTypeOS2WeightClass"], o.usWeightClass),
+                  ("openTypeOS2WidthClass", o.usWidthClass == effx["openTypeOS2WidthClass"], o.usWidthClass),
+                  ("trademark", (tt["name"].getDebugName(7) or "") == effx["trademark"] or (effx["trademark"] == "" and "trademark" in ovx), tt["name"].getDebugName(7))]
+        for attr, ok, got in checks:
+            if not ok:
+                ctx.spec_failure(dict(case, attribute=attr), "variable font: %s should be %r (override %s), table holds %r" % (
+                    attr, effx[attr], "given" if attr in ovx else "absent: default master's value", got))
+    vals = ctx.coq_eval(IMPORTS, FN_VM, cases, chunk=100, tag="VFInfo")
+    for v, case in zip(vals, meta):
+        if v is None:
+            continue
+        if not v & 2:
+            ctx.spec_failure(case, "variable font: an overriding attribute does not appear (rounded) in its OS/2 / hhea field")
+        elif not v & 1:
+            ctx.corr_mismatch(case, "Gallina fallback model on (default master info + overrides) differs from the variable font's fields")
 
 
 # ---------------------------------------------------------------- names / totality (direct, independent restatement)
